@@ -19,6 +19,8 @@ import warnings
 VERIF = os.path.dirname(os.path.dirname(os.path.abspath(__file__)))
 os.environ.setdefault("WALLGO_VERIF", "1")
 warnings.filterwarnings("ignore")
+import logging as _logging
+_logging.disable(_logging.CRITICAL)
 
 
 def _load(pid):
